@@ -196,8 +196,6 @@ xds_decoder(vbi_decoder *vbi, int _class, int type,
 			neq = (pi->month ^ month) | (pi->day ^ day)
 				| (pi->hour ^ hour) | (pi->min ^ min);
 
-			pi->tape_delayed = !!(buffer[3] & 0x10);
-
 			if (neq) {
 				flush_prog_info(vbi, pi, &e);
 
@@ -205,9 +203,13 @@ xds_decoder(vbi_decoder *vbi, int _class, int type,
 				pi->day = day;
 				pi->hour = hour;
 				pi->min = min;
-
-				pi->tape_delayed = !!(buffer[3] & 0x10);
 			}
+
+			/* A changed tape delay flag alone is not a new
+			   program (no flush), but it is a change to be
+			   reported by the next repetition. */
+			neq |= pi->tape_delayed ^ !!(buffer[3] & 0x10);
+			pi->tape_delayed = !!(buffer[3] & 0x10);
 
 			break;
 		}
